@@ -588,6 +588,54 @@ def split_top(s):
     return out
 
 
+def _parse(tokens, i):
+    if tokens[i] == "(":
+        out, i = [], i + 1
+        while tokens[i] != ")":
+            x, i = _parse(tokens, i)
+            out.append(x)
+        return out, i + 1
+    return tokens[i], i + 1
+
+
+def _ser(x):
+    return x if isinstance(x, str) else "(" + " ".join(_ser(y) for y in x) + ")"
+
+
+def _canon(x):
+    if isinstance(x, str):
+        return x
+    x = [_canon(y) for y in x]
+    if x and x[0] == "union":
+        x = ["union"] + sorted(x[1:], key=_ser)
+    return x
+
+
+def canon_unions(text):
+    """Sort the members of every union in a string of s-expressions (used only where the order came from iterating a
+    Python set: C06 is not about that order, C10 is)."""
+    toks = text.replace("(", " ( ").replace(")", " ) ").split()
+    out, i = [], 0
+    while i < len(toks):
+        x, i = _parse(toks, i)
+        out.append(_ser(_canon(x)))
+    return " ".join(out)
+
+
+def emitted(bad, params):
+    """The diagnostics that survive pyanalyze's duplicate filter (node_visitor.py:613, C11's business): an error on a *args /
+    **kw parameter is attached to the call node itself, and only the first error per (node, code) is shown."""
+    kinds = {p[0]: p[1] for p in params}
+    out, seen_call_node = [], False
+    for n in bad:
+        if kinds.get(n) in ("vp", "vk"):
+            if seen_call_node:
+                continue
+            seen_call_node = True
+        out.append(n)
+    return out
+
+
 def parse_model(line):
     return dict(x.split("=", 1) for x in line.split(" | "))
 
@@ -922,6 +970,10 @@ def evaluate(ctx, items, with_model=True):
                     mv_e2e = {"BIND": "CALL", "RESOLVE": "CALL"}.get(mv, mv)
                     if mv.startswith("TVARG:"):
                         mv_e2e = "OK:" + mv[6:]
+                    elif mv.startswith("OK:") and mv != "OK:":
+                        mv_e2e = "OK:" + ",".join(emitted(mv[3:].split(","), c["params"]))
+                    from_set = any(x[0] in ("set", "fset") for o in call[0] + [v for _, v in call[1]] for x in subobjs(o))
+                    cu = canon_unions if from_set else (lambda z: z)
                     ctx.tag("model_" + mv.split(":")[0])
                     # ---- correspondence
                     ctx.corr("e2e-verdict")
@@ -929,7 +981,7 @@ def evaluate(ctx, items, with_model=True):
                         conforms = False
                         ctx.disagree("e2e-verdict", short, {"verdict": r["verdict"], "other": r["other"], "msgs": r["msgs"]}, mv)
                     ctx.corr("e2e-type")
-                    if r["type"] != m["ret"]:
+                    if cu(r["type"]) != cu(m["ret"]):
                         conforms = False
                         ctx.disagree("e2e-type", short, r["type"], m["ret"])
                     if generic and r["sol"] is not None and mv == "OK:":
@@ -937,8 +989,8 @@ def evaluate(ctx, items, with_model=True):
                         msol = {}
                         for grp in split_top(m["sol"]):
                             k_, _, v_ = grp[1:-1].partition(" ")
-                            msol.setdefault(int(k_), v_)  # first entry wins (TvMap.get)
-                        isol = r["sol"] if r["sol"] == "UNENC" else {k: V.ty_sexp(v) for k, v in r["sol"].items()}
+                            msol.setdefault(int(k_), cu(v_))  # first entry wins (TvMap.get)
+                        isol = r["sol"] if r["sol"] == "UNENC" else {k: cu(V.ty_sexp(v)) for k, v in r["sol"].items()}
                         if isol == "UNENC" or any(msol.get(k) != v for k, v in isol.items()):
                             conforms = False
                             ctx.disagree("e2e-sol", short, isol, m["sol"])
